@@ -491,6 +491,10 @@ SVA_EXCLUDED = {
     "getitem": "structural",
     "getslice": "structural",
     "matmul": "linear algebra, arrays only",
+    "clamp": "takes bounds as extra arguments; the scalar default shadows min/max with its parameters and raises "
+    "TypeError (a decline), so there is nothing to compare with the array registration np.clip",
+    "isnan": "predicate on NaN; the grid contains no NaN",
+    "detach": "identity",
 }
 
 
@@ -952,6 +956,17 @@ _DISPATCH = {
 def check(case, seed):
     with np.errstate(all="ignore"):
         return _DISPATCH[case[0]](case)
+
+
+def finalize(report, tier, seed):
+    """Point-level declines / skips (inside the cases) made visible next to the case-level ones."""
+    dec = {k[len("declined:") :]: n for k, n in report.counters.items() if k.startswith("declined:")}
+    skp = {k[len("skipped:") :]: n for k, n in report.counters.items() if k.startswith("skipped:")}
+    return {
+        "declines": dict(sorted(dec.items())),
+        "skipped_points": dict(sorted(skp.items())),
+        "points_compared": report.counters.get("points_compared", 0),
+    }
 
 
 def describe(case):
